@@ -69,6 +69,18 @@ TFnEnd ==
   /\ finished' = finished \cup {Cur.id}
   /\ UNCHANGED <<pend, queued, maxreq, released, idle, gatedIds>>
 
+\* MinDuration(d, fn): the wrapped function takes at least d (its value and error pass through: checked at the return)
+TFnSpan ==
+  /\ IsEv("fnspan") /\ Consume
+  /\ Cur.id \in finished /\ Cur.dur_ns >= Cur.min_us * 1000
+  /\ UNCHANGED <<vars, pend>>
+
+\* invalid use (count <= 0, nil function, duration <= 0) panics and has no effect
+TBad ==
+  /\ IsEv("bad") /\ Consume
+  /\ Cur.panicked /\ ~Cur.ran
+  /\ UNCHANGED <<vars, pend>>
+
 TRelease ==
   /\ IsEv("release") /\ Consume
   /\ released' = released \cup {Cur.id}
@@ -146,7 +158,7 @@ TSilent ==
   /\ SilentOK /\ l' = l
   /\ \E g \in GS : pend[g].st \in {"called", "held"} /\ (LinEnqueue(g) \/ LinCallDone(g) \/ LinWait(g) \/ LinCount(g))
 
-TVNext == TSilent \/ TReset \/ TCall \/ TRet \/ TFnStart \/ TFnEnd \/ TRelease \/ TQuiescent \/ TFinal
+TVNext == TSilent \/ TReset \/ TCall \/ TRet \/ TFnStart \/ TFnEnd \/ TFnSpan \/ TBad \/ TRelease \/ TQuiescent \/ TFinal
 TVSpec == TVInit /\ [][TVNext]_tvars
 Mark ==
   /\ IF l - 1 > TLCGet(1) THEN TLCSet(1, l - 1) ELSE TRUE
